@@ -63,7 +63,7 @@ PROPS = {
                 level_text='Verus proves on the real PathAwareValue::merge: duplicate top-level key <=> Err(MultipleValues), otherwise the result holds every entry of both operands in order with aligned key bookkeeping; lists concatenate; other type pairs are IncompatibleError; plus the lemma that the key->value mapping of a disjoint union is order independent',
                 level_note='the call sites in validate.rs / structured.rs (I/O functions; one unwrap()s the error) are not under contract',
                 not_under_contract=['Validate::execute -i folding', 'structured reporter merge call (unwrap)'], explanation=''),
-    'C18': dict(level='other', vgroups=[], kunits=['U-count', 'U-conv', 'U-substr', 'U-join'], assumptions=KANI_ASSUME,
+    'C18': dict(level='other', vgroups=['index'], kunits=['U-count', 'U-conv', 'U-substr', 'U-join'], assumptions=KANI_ASSUME,
                 level_text='Kani proofs on the real built-in functions: complete over the numeric/char payloads of the converters, bounded (stated bounds) for every string-valued obligation',
                 level_note='to_upper/to_lower/url_decode/regex_replace/json_parse and the String arms of parse_* delegate to std / third-party code (trusted); composition laws are not decided',
                 not_under_contract=['to_upper', 'to_lower', 'url_decode', 'regex_replace', 'json_parse', 'parse_* on strings', 'now', 'parse_epoch'],
